@@ -371,6 +371,50 @@ def s_odd(v):
     return c
 
 
+def s_multi(v):
+    """two Manifests in the top directory (Manifest referencing Manifest.files.gz, which
+    lists files of the top and of a sub-directory that has no Manifest of its own)"""
+    c = Ctx()
+    fs = c.fs = ModelFS()
+    file_slot(v, fs, 'b', 'b', kinds=('absent', 'file'))
+    fs.add_dir('sub')
+    file_slot(v, fs, 'sub/c', 'c', kinds=('absent', 'file'))
+    fs.add_file('a', size=1, digest='A')
+    f_size, f_dig = v.filetoken('mf_size', 'mf_dig')
+    l_size, l_dig = v.size('ml_size'), v.dig('ml_dig')
+    second = entry_slot(v, 'eb', 'b', tags=('DATA', 'IGNORE')) \
+        + entry_slot(v, 'ec', 'sub/c', tags=('DATA', 'MISC'))
+    fs.add_manifest('Manifest.files.gz', second, size=f_size, digest=f_dig)
+    top = [mk('DATA', 'a', 1, MD5=digest_for('MD5', 'A')),
+           mk('MANIFEST', 'Manifest.files.gz', l_size, MD5=digest_for('MD5', l_dig))]
+    fs.add_manifest('Manifest', top)
+    c.path = pick(('', 'sub'), v.choice('vp', 2))
+    c.last_mtime = None
+    return c
+
+
+def s_symlink(v):
+    """file symlink with an entry, directory symlink to a sibling whose files are reached
+    under the link's path, dangling symlink with or without entry"""
+    c = Ctx()
+    fs = c.fs = ModelFS()
+    file_slot(v, fs, 'a', 'a', kinds=('absent', 'file'))
+    fs.add_symlink('lnk', 'a')
+    fs.add_dir('sub')
+    file_slot(v, fs, 'sub/c', 'c', kinds=('absent', 'file'))
+    fs.add_symlink('dl', 'sub')
+    fs.add_symlink('dang', 'nowhere')
+    top = entry_slot(v, 'ea', 'a', tags=('DATA',))
+    top += entry_slot(v, 'el', 'lnk', tags=('DATA', 'IGNORE'))
+    top += entry_slot(v, 'ec', 'sub/c', tags=('DATA',))
+    top += entry_slot(v, 'ed', 'dl/c', tags=('DATA',))
+    top += entry_slot(v, 'eg', 'dang', tags=('DATA',))
+    fs.add_manifest('Manifest', top)
+    c.path = pick(('', 'dl'), v.choice('vp', 2))
+    c.last_mtime = None
+    return c
+
+
 STRAY_NAMES = ('Manifest', 'Manifest.gz', 'x', 'Manifest.files', 'manifest', '.Manifest')
 TOP_NAMES = ('Manifest', 'Manifest.gz')
 
@@ -472,6 +516,25 @@ def m_conditions(tier):
                                 group='M-' + nm0[2:], twin=False,
                                 descr='real assert_directory_verifies on the model vs '
                                       'set-based oracle', bounds=bnd))
+    for fx in partitions([('b_kind', range(2)), ('c_kind', range(2)),
+                          ('eb_present', (False, True)), ('ec_present', (False, True))]):
+        nm = 'm_multi_' + ''.join(str(int(x)) for x in fx.values())
+        cs.append(make_cond(nm, s_multi, run_verify, judge_verify, fx, timeout=300,
+                            group='M-multi', twin=False,
+                            descr='two Manifests in one directory (Manifest -> '
+                                  'Manifest.files.gz, link symbolic on both sides), entries '
+                                  'for a top-level and a sub-directory file in the second one',
+                            bounds='2 symbolic files, 2 entry slots, symbolic link'))
+    for fx in partitions([('a_kind', range(2)), ('c_kind', range(2)), ('vp', range(2)),
+                          ('ed_present', (False, True))]):
+        nm = 'm_symlink_' + ''.join(str(int(x)) for x in fx.values())
+        cs.append(make_cond(nm, s_symlink, run_verify, judge_verify, fx, timeout=300,
+                            group='M-symlink', twin=False,
+                            descr='file symlink (listed or IGNOREd), directory symlink to a '
+                                  'sibling directory (its file reached as dl/c, listed or '
+                                  'not), dangling symlink (listed or not)',
+                            bounds='2 symbolic files, 5 entry slots, verified path "" or the '
+                                   'link'))
     for fx in partitions([('top', range(2)), ('stray_dir', range(3))]):
         nm = f'm_stray_t{fx["top"]}_d{fx["stray_dir"]}'
         cs.append(make_cond(nm, s_stray, run_verify_top, judge_verify_top, fx, timeout=300,
